@@ -114,7 +114,11 @@ class HexModel:
                     if k == name or k == '__PVT__' + name or k.endswith('__DOT__' + name):
                         return f"s->{where}.{k}", tbl[k]
             raise Inconclusive(f"signal {name} not found in the Verilator output")
-        acc = []; self.width = {}; self.names = HEX_SIGNALS
+        acc = []; self.width = {}; self.names = []
+        for n in HEX_SIGNALS:
+            try: find(n); self.names.append(n)
+            except Inconclusive:
+                if n != 'instr': raise          # 'instr' is only public in processor.sv; nothing depends on it
         for k, n in enumerate(self.names):
             expr, w = find(n); self.width[n] = w
             acc.append(f"    case {k}: return &{expr}{'[0]' if n == 'memory_q' else ''};")
